@@ -441,12 +441,19 @@ def oracle(case, ir, drv=None, max_k=3):
     strad_diff = bool(strad) and any(abs(float(c[j]) - float(op.c[j])) > 1e-12 for c in ir['c_samples'] for j in strad)
     obs['straddling_present_vars'] = len(strad)
     facts_s = {'straddling_cost_differs': strad_diff}
+    # scenario cost vectors when the samples do NOT share the present prices (outside the premise of the statement): the scenario
+    # as make_slp reads it - own cost for future and straddling variables, the problem's cost for the other present variables
+    own = mask.copy()
+    own[strad] = True
+    cs_read = [op.c.copy()] + [np.where(own, c, op.c) for c in ir['c_samples']]
     if case.get('how') in ('perturb', 'identical'):
         cs = [op.c.copy()] + [np.asarray(c, dtype=float).copy() for c in ir['c_samples']]
         pres_other = [j for j in np.where(~mask)[0] if j not in set(strad)]
         if any(np.abs(c[pres_other] - op.c[pres_other]).max(initial=0.0) > 1e-9 * scale for c in cs[1:]):
             obs['present_costs_differ_although_present_prices_shared'] = True
-            cs = [op.c.copy()] + [np.where(mask, c, op.c) for c in ir['c_samples']]
+            cs = cs_read
+    else:
+        cs = cs_read
     # ---- per-scenario optima, wait-and-see bound
     det = []
     for c in cs:
